@@ -260,6 +260,12 @@ def net_reordering_model(d, ctx):
             T = base.shape[-1]
             field, _ = draw_field(d, rng, K, F)
             mask = permute(base * rng.uniform(0.7, 1.3, size=base.shape), field)
+    level = 1.0
+    if d.aux(164).integers(0, 2) == 0:
+        # "all real masks": any level (posteriors of a nearly inactive class,
+        # magnitudes, powers)
+        level = float(10.0 ** d.aux(165).uniform(-8, 6))
+        mask = mask * level
     which = d.choice(['dhtv', 'dhtv', 'greedy'])
     if which == 'dhtv':
         start = d.int(0, F - 1)
@@ -279,8 +285,9 @@ def net_reordering_model(d, ctx):
         aligner = pa.GreedyPermutationAlignment(similarity_metric=metric)
         ref_map, tie = oa.greedy_chain(mask, metric)
         ref_feat = None
-    ctx.describe(K=K, F=F, T=T, aligner=which, config=cfg)
-    ctx.label(which, f'K={K}', 'signed' if signed else 'non-negative')
+    ctx.describe(K=K, F=F, T=T, aligner=which, config=cfg, level=level)
+    ctx.label(which, f'K={K}', 'signed' if signed else 'non-negative',
+              'unit-level' if level == 1.0 else 'other-level')
     if tie:
         raise Borderline('score tie')
     mapping = np.asarray(ctx.lib(aligner.calculate_mapping, mask.copy()))
@@ -300,6 +307,6 @@ def net_reordering_model(d, ctx):
     if ref_feat is not None:
         feat = oa.normalise(exp) if cfg['similarity_metric'] == 'cos' else exp
         require_close(feat, ref_feat, 'aligned-mask-differs-from-converged-features',
-                      atol=1e-12)
+                      atol=1e-12 * (1.0 if cfg['similarity_metric'] == 'cos' else level))
     ctx.nontrivial(K >= 2 and not np.array_equal(
         ref_map, np.repeat(np.arange(K)[:, None], F, 1)))
